@@ -10,7 +10,7 @@
        alphabet applied at every distinct state found (pruned on the projected state plus which of the
        existing profiles count as picked), state restored from the bytes of profiles.db;
    (b) model-driven: TLC's state graph of the small instance is dumped and its edges are replayed on
-       the real code along covering paths (quick: a seeded sample; thorough: every edge);
+       the real code, state by state (quick: the shallowest states plus a seeded sample; thorough: every edge);
    (c) fixed histories: the witness of the known finding and its CLI-only variant, run without the
        harness's synchronous=OFF shortcut.
 3. Every recorded history is judged by Obs_C37.tla and validated step by step against
@@ -29,7 +29,7 @@ LEVEL = "model_checking"
 RULE = ("histories = (a) every operation of the alphabet (env add/switch/delete, create by token/oidc, select, "
         "select-any, logout, update, ConfigManager create/delete with explicit environment) applied at every "
         "distinct state of a breadth-first exploration of the real system, (b) covering paths through TLC's state "
-        "graph of the 2-environment instance, (c) fixed witnesses; non-trivial = an environment delete/switch/add "
+        "graph of the default+1-environment instance (every edge in thorough), (c) fixed witnesses; non-trivial = an environment delete/switch/add "
         "or a profile delete happened after a profile had been selected or created")
 
 ENVS = ["e0", "e1", "e2"]
@@ -88,33 +88,91 @@ def _state_key(obs, picked):
 
 
 def explore_impl(sysm, ops, max_states, max_depth):
-    """(a) breadth-first over the real system; returns traces (path + one operation each)."""
+    """(a) breadth-first over the real system.  One trace per expanded state: the path that reached it plus
+    the fan of all operations applied to it (state restored from the bytes of profiles.db each time)."""
     init_obs = sysm.observe()
     init = sysm.snapshot()
     seen = {_state_key(init_obs, set()): 0}
     queue = [(init, init_obs, [], set())]     # snapshot, observation, path events, mirror-picked
     traces = []
     qi = 0
-    expanded = 0
-    while qi < len(queue) and expanded < max_states:
+    while qi < len(queue) and len(traces) < max_states:
         snap, obs, path, picked = queue[qi]
         qi += 1
         if len(path) >= max_depth:
             continue
-        expanded += 1
+        fan = []
         for op in ops:
             sysm.restore(snap)
             ret, rid = sysm.apply(op)
             post = sysm.observe()
             ev = {"op": op, "ret": ret, "ret_id": rid, "post": post}
-            traces.append({"init": init_obs, "events": path + [ev]})
+            fan.append(ev)
             pk = _mirror_picked(picked, obs, op, ret, rid)
             key = _state_key(post, pk)
             if key not in seen:
                 seen[key] = len(path) + 1
                 queue.append((sysm.snapshot(), post, path + [ev], pk))
+        traces.append({"init": init_obs, "events": path, "fan": fan})
     exhausted = qi >= len(queue)
-    return traces, len(seen), expanded, exhausted
+    return traces, len(seen), exhausted
+
+
+def replay_model_graph(sysm, g, init_snap, init_obs, max_states, rng):
+    """(b) the edges of TLC's state graph, replayed on the real code: breadth-first over the MODEL's states;
+    at each one the real system is put into the corresponding state (bytes reached along the BFS tree) and
+    every outgoing edge's operation is applied.  With max_states < |graph| the first half of the budget goes
+    to the shallowest states and the rest to a seeded sample of the others."""
+    succ = g.succ()
+    order, parent = list(g.init), {s: None for s in g.init}
+    qi = 0
+    while qi < len(order):
+        s = order[qi]
+        qi += 1
+        for (d, lab) in succ.get(s, ()):
+            if d not in parent:
+                parent[d] = (s, lab)
+                order.append(d)
+    if max_states >= len(order):
+        chosen = list(order)
+    else:
+        head = order[: max_states // 2]
+        rest = order[max_states // 2:]
+        rng.shuffle(rest)
+        chosen = head + rest[: max_states - len(head)]
+    cache = {}      # model state -> (snapshot, observation, path events)
+
+    def reach(s):
+        if s in cache:
+            return cache[s]
+        if parent[s] is None:
+            cache[s] = (init_snap, init_obs, [])
+            return cache[s]
+        ps, lab = parent[s]
+        snap, obs, path = reach(ps)
+        sysm.restore(snap)
+        op = label_to_op(lab)
+        ret, rid = sysm.apply(op)
+        post = sysm.observe()
+        cache[s] = (sysm.snapshot(), post, path + [{"op": op, "ret": ret, "ret_id": rid, "post": post}])
+        return cache[s]
+
+    import sys
+    sys.setrecursionlimit(max(sys.getrecursionlimit(), 10000))
+    traces, n_edges = [], 0
+    for s in chosen:
+        snap, obs, path = reach(s)
+        fan = []
+        for (d, lab) in succ.get(s, ()):
+            op = label_to_op(lab)
+            if op is None:
+                raise Machinery("unreadable action label in the state graph: %r" % lab)
+            sysm.restore(snap)
+            ret, rid = sysm.apply(op)
+            fan.append({"op": op, "ret": ret, "ret_id": rid, "post": sysm.observe()})
+            n_edges += 1
+        traces.append({"init": init_obs, "events": path, "fan": fan})
+    return traces, n_edges, len(order)
 
 
 def run_history(sysm, init_snap, init_obs, ops):
@@ -123,12 +181,12 @@ def run_history(sysm, init_snap, init_obs, ops):
     for op in ops:
         ret, rid = sysm.apply(op)
         evs.append({"op": op, "ret": ret, "ret_id": rid, "post": sysm.observe()})
-    return {"init": init_obs, "events": evs}
+    return {"init": init_obs, "events": evs, "fan": []}
 
 
-def _nontrivial(tr):
+def _nontrivial(events):
     armed = False
-    for e in tr["events"]:
+    for e in events:
         k = e["op"][0]
         if e["ret"] == "ok" and k in ("create_token", "oidc", "select", "select_any"):
             armed = True
@@ -181,38 +239,26 @@ def run(chk):
     sysm = drv.System(chk.work, envs=ENVS, names=NAMES, fast_sync=True)
     init_snap, init_obs = sysm.snapshot(), sysm.observe()
     # (a) implementation-driven exploration
-    impl, n_states, n_expanded, exhausted = explore_impl(sysm, alphabet(ENVS, NAMES),
-                                                         max_states=chk.pick(90, 1500), max_depth=chk.pick(6, 8))
+    impl, n_states, exhausted = explore_impl(sysm, alphabet(ENVS, NAMES),
+                                             max_states=chk.pick(100, 700), max_depth=chk.pick(7, 9))
     traces += impl
     origin += ["impl"] * len(impl)
 
-    # (b) model-driven: edges of TLC's graph along covering paths
+    # (b) model-driven: the edges of TLC's state graph
     res = futures["graph"].result()
     chk.record_tlc("Llamactl/graph", res)
     if res.violated:
         chk.violation("model:graph:" + res.violated, "Llamactl.tla (graph instance) violates " + res.violated,
                       {"trace": res.trace})
     chk.require_tlc_ok("graph", res, allow_violation=True)
-    n_model = n_edges = 0
+    n_model = n_edges = n_graph_states = 0
     if not res.violated:
         g = tlc.load_dot(str(chk.work / "g_graph") + ".dot")
-        paths = tlc.covering_paths(g, max_len=chk.pick(14, 30))
-        n_edges = len(g.edges)
-        rng = random.Random(chk.seed)
-        if chk.quick:
-            rng.shuffle(paths)
-        budget = chk.pick(3000, 10 ** 9)
-        used = 0
-        for path in paths:
-            ops = [label_to_op(lab) for (_, _, lab) in path]
-            if any(o is None for o in ops):
-                raise Machinery("unreadable action label in the state graph: %s" % [lab for (_, _, lab) in path][:3])
-            if used + len(ops) > budget:
-                break
-            used += len(ops)
-            traces.append(run_history(sysm, init_snap, init_obs, ops))
-            origin.append("model")
-            n_model += 1
+        mtr, n_edges, n_graph_states = replay_model_graph(sysm, g, init_snap, init_obs, chk.pick(80, 10 ** 9),
+                                                          random.Random(chk.seed))
+        traces += mtr
+        origin += ["model"] * len(mtr)
+        n_model = len(mtr)
     sysm.close()
 
     # remaining model-checking results
@@ -253,51 +299,72 @@ def run(chk):
                  "active": [e["post"]["active"]["n"], e["post"]["active"]["e"]],
                  "profiles": [[p["n"], p["e"]] for p in e["post"]["profiles"]]} for e in tr["events"][:upto]]
 
-    kf_traces = set()
+    def _events(tid, pos):
+        """The history ending at position pos of trace tid (path index, or path length + alternative)."""
+        tr = traces[tid - 1]
+        n = len(tr["events"])
+        return tr["events"][:pos] if pos <= n else tr["events"] + [tr["fan"][pos - n - 1]]
+
+    kf_hist = 0
     for v in ores.prints:
         if isinstance(v, tuple) and len(v) >= 5 and v[0] == "KF":
-            tid, l, clause, cause = v[1], v[2], v[3], v[4]
-            kf_traces.add(tid)
+            tid, pos, clause, cause = v[1], v[2], v[3], v[4]
+            kf_hist += 1
+            h = _events(tid, pos)
             chk.violation("obs:%s:%s" % (clause, cause),
                           "after %s the active profile %s was never selected or created while its environment was current" % (
-                              traces[tid - 1]["events"][l - 1]["op"], traces[tid - 1]["events"][l - 1]["post"]["active"]),
-                          {"history": _hist(traces[tid - 1], l)})
+                              h[-1]["op"], h[-1]["post"]["active"]), {"history": _hist({"events": h}, len(h))})
+    # every path and every alternative got its own verdict line
+    n_hist = 0
+    judged = set()
+    for v in ores.prints:
+        if isinstance(v, tuple) and len(v) >= 5 and v[0] == "VERDICT":
+            tid, clause, pos, cause = v[1], v[2], v[3], v[4]
+            judged.add((tid, pos if pos > len(traces[tid - 1]["events"]) else 0))
+            if clause != "ok":
+                h = _events(tid, pos)
+                chk.violation("obs:%s:%s" % (clause, cause),
+                              "llamactl history violates clause '%s' after operation %s (event %d): current env %s, active %s" % (
+                                  clause, h[-1]["op"], len(h), h[-1]["post"]["cur_env"], h[-1]["post"]["active"]),
+                              {"history": _hist({"events": h}, len(h))})
     matched = nontriv = 0
+    alt_ok = {(v[1], v[2]) for v in cres.prints if isinstance(v, tuple) and len(v) >= 3 and v[0] == "A"}
     seen = set()
     for i, tr in enumerate(traces, 1):
-        clause, l = verdicts[i][0], verdicts[i][1]
-        cause = verdicts[i][2] if len(verdicts[i]) > 2 else "-"
-        if clause != "ok":
-            chk.violation("obs:%s:%s" % (clause, cause),
-                          "llamactl history violates clause '%s' after operation %s (event %d): current env %s, active %s" % (
-                              clause, tr["events"][l - 1]["op"], l, tr["events"][l - 1]["post"]["cur_env"],
-                              tr["events"][l - 1]["post"]["active"]),
-                          {"history": _hist(tr, l)})
-        if reached.get(i, 0) == len(tr["events"]):
-            matched += 1
-        elif len(chk.notes) < 10:
-            k = reached.get(i, 0)
-            chk.note("conformance drift (%s history %d): matched %d/%d events; first unmatched %s -> ret %s" % (
-                origin[i - 1], i, k, len(tr["events"]), tr["events"][k]["op"], tr["events"][k]["ret"]))
-        sig = repr([e["op"] for e in tr["events"]])
-        if sig not in seen:
-            seen.add(sig)
-            if _nontrivial(tr):
-                nontriv += 1
+        n = len(tr["events"])
+        path_ok = reached.get(i, 0) == n
+        hists = [(0, tr["events"])] if not tr["fan"] else [(j, tr["events"] + [alt]) for j, alt in enumerate(tr["fan"], 1)]
+        for j, h in hists:
+            n_hist += 1
+            if (i, 0) not in judged or (j and (i, n + j) not in judged and verdicts[i][0] == "ok"):
+                raise Machinery("observer gave no verdict for history %d/%d" % (i, j))
+            if path_ok and (j == 0 or (i, j) in alt_ok):
+                matched += 1
+            elif len(chk.notes) < 10:
+                k = reached.get(i, 0) if not path_ok else n
+                chk.note("conformance drift (%s history %d/%d): matched %d/%d events; first unmatched %s -> ret %s" % (
+                    origin[i - 1], i, j, k, len(h), h[k]["op"], h[k]["ret"]))
+            sig = repr([e["op"] for e in h])
+            if sig not in seen:
+                seen.add(sig)
+                if _nontrivial(h):
+                    nontriv += 1
     if dev and not model_refutes_strict:
         chk.note("the code shows the delete_environment deviation but the model (code_strict) does not refute C37")
     if not dev:
         chk.note("delete_environment no longer leaves a stale current_profile on this tree: "
                  "Dev_DeleteEnvKeepsProfile = FALSE is the variant bound to the code")
-    chk.add(evaluations=len(traces), distinct_nontrivial=nontriv, traces_validated_against_impl=matched,
-            impl_states_found=n_states, impl_states_expanded=n_expanded, impl_exploration_exhausted=bool(exhausted),
-            impl_transitions=len(impl), model_paths_replayed=n_model, model_graph_edges=n_edges,
-            histories_with_known_finding=len(kf_traces), code_follows_dev_variant=bool(dev))
+    chk.add(evaluations=n_hist, distinct_nontrivial=nontriv, traces_validated_against_impl=matched,
+            impl_states_found=n_states, impl_states_expanded=len(impl), impl_exploration_exhausted=bool(exhausted),
+            impl_transitions=sum(len(t["fan"]) for t in impl), model_states_replayed=n_model,
+            model_edges_replayed=n_edges, model_graph_states=n_graph_states,
+            histories_with_known_finding=kf_hist, code_follows_dev_variant=bool(dev))
     for idx in (0, 1, len(FIXED) + len(impl) // 2, len(traces) - 1):
         tr = traces[idx]
+        h = tr["events"] + tr["fan"][-1:]
         chk.sample({"origin": origin[idx], "history": [[e["op"], e["ret"], e["post"]["cur_env"], e["post"]["active"]["n"],
-                                                        e["post"]["active"]["e"]] for e in tr["events"]]})
-    chk.exhaustive = bool(exhausted) or not chk.quick
+                                                        e["post"]["active"]["e"]] for e in h]})
+    chk.exhaustive = bool(exhausted) or (n_model == n_graph_states and n_model > 0)
     chk.assumptions += [
         "stubbed, not verified: llama_agents.cli package __init__ (CLI/TUI stack), llama_agents.cli.auth.client, "
         "llama_agents.core.client.manage_client; no operation used reaches the network (profiles carry no api_key_id)",
